@@ -146,15 +146,29 @@ def check_c03(tier, seed):
     rng = random.Random(seed)
     nrand = 4000 if tier == "quick" else 40000
     rnd = [tuple(gen_sentence(rng)) for _ in range(nrand)]
+    shared = ExpressionParser()  # one long-lived parser for the whole sweep: results must not depend on history
     for seq in seqs + rnd:
         if len(seq) > 16:
             continue
         spec = spec_parse(list(seq))
+        # the text with all separating spaces removed (it may tokenize differently): the long-lived
+        # parser must treat it exactly like a fresh one, and it must not influence the spaced texts
+        merged = realise(seq, " ")[0].replace(" ", "")
+        cases += 1
+
+        def _out(p, s):
+            try:
+                return ("tree", tree_sig(p.parse(s)))
+            except Exception as e:  # noqa: BLE001
+                return ("raise", type(e).__name__)
+
+        if _out(shared, merged) != _out(ExpressionParser(), merged):
+            fails.append({"clause": "accepts-exactly-the-grammar", "detail": f"`{merged}` is read differently by a parser that has parsed other strings before"})
         for sep in (" ", ""):
             text, vals = realise(seq, sep)
             cases += 1
             try:
-                tree = ExpressionParser().parse(text)
+                tree = shared.parse(text)
                 err = None
             except ParserException as e:
                 tree, err = None, type(e).__name__
